@@ -2,15 +2,37 @@
 (* Trace validation for C11 (dispatch events), C12 (extension scripts) and C18 (JSON adapter events). *)
 EXTENDS DispatchTable, Json, TLC
 Trace == ndJsonDeserialize("trace.ndjson")
-VARIABLES l, bad, desync, xs, mfail
-tvars == <<l, bad, desync, xs, mfail>>
-TInit == l = 1 /\ bad = <<>> /\ desync = <<>> /\ xs = <<0, 0, 0>> /\ mfail = <<>>
+VARIABLES l, bad, desync, xs, xl, xraw, mfail
+tvars == <<l, bad, desync, xs, xl, xraw, mfail>>
+TInit == l = 1 /\ bad = <<>> /\ desync = <<>> /\ xs = <<0, 0, 0>> /\ xl = 0 /\ xraw = FALSE /\ mfail = <<>>
 \* ---- C12: extension scripts ----------------------------------------------------------------
 \* ext = abstract extension state of the message under test: slot -> value id (0 = unset)
 XApply(x, op) == CASE op[1] = "set"      -> [x EXCEPT ![op[2]] = op[3]]
                    [] op[1] = "clear"    -> [x EXCEPT ![op[2]] = 0]
                    [] op[1] = "clearall" -> [s \in 1..3 |-> 0]
                    [] OTHER -> x
+\* the late-bound slot (Extensions.tla): its value, and whether it is still held in encoded form.  What a message SHOWS of it must not
+\* depend on the representation, with one named deviation (LateDecodes): a legacy google-v1 message that carries csproto's generated
+\* Unmarshal method cannot decode a field whose descriptor the generated code did not know (the runtime's late decoding goes through that
+\* method, which ignores the resolver), so there a Get that meets the encoded form reports "missing" - exactly like the runtime's own
+\* GetExtension on that message, which is what is required.
+XLate(v, op) == CASE op[1] \in {"arrive", "setlate"} -> op[3]
+                  [] op[1] \in {"clearlate", "clearall"} -> 0
+                  [] OTHER -> v
+LateDecodes(fl) == fl = "gogo"
+XRaw(r, e) == CASE e.op[1] = "arrive" -> TRUE
+                [] e.op[1] \in {"setlate", "clearlate", "clearall"} -> FALSE
+                [] e.op[1] = "getlate" -> r /\ e.late[5] = 0        \* decoded by a Get that succeeded
+                [] OTHER -> r
+LateOK(v, raw, e) == e.late[1] # -1 =>            \* (-1: the flavour has no late binding, nothing was observed)
+  LET has == IF v # 0 THEN 1 ELSE 0 IN
+  /\ e.late[1] = has /\ e.late[2] = has    \* HasExtension, and the owning runtime's
+  /\ (e.late[3] # -1 /\ has = 0) => e.late[3] = 0   \* once cleared it is not in the marshaled bytes (that it IS there while present is
+                                                     \* C05's business: generated Marshal only knows the extensions declared in its own file)
+  /\ e.late[4] = has                        \* RangeExtensions visits it iff present
+  /\ e.late[5] # -1 =>                      \* a Get: the value (0: nothing), and the same answer as the runtime's own GetExtension
+        /\ e.late[6] = 1
+        /\ IF raw /\ ~LateDecodes(e.fl) THEN e.late[5] \in {0, v} ELSE e.late[5] = v
 ExtOK(x, e) ==                      \* x = the state the model reaches by this step
   /\ e.st = "ok"
   /\ e.fnum = 1                     \* ExtensionFieldNumber returned the declared numbers
@@ -37,6 +59,14 @@ ExtRtOK(e) == CASE e.op = "C04" -> e.st # "panic" /\ (e.st = "ok" => (e.szok = 1
                 [] e.op = "C06" -> e.st # "panic" /\ e.x2 = 1
                 [] e.op = "C08" -> e.st # "panic" /\ e.x2 = 1          \* mutated bytes: no panic; equal whenever both accept
                 [] OTHER -> FALSE
+\* a late-bound extension (decoded by the owning runtime before its descriptor was known, still in encoded form): Has before and after
+\* Clear / ClearAll, Get, and the presence of the field in the marshaled bytes afterwards all equal the owning runtime's own answers on an
+\* identical message - and after the clearing operation the extension is absent (has[2] = 0, not in the bytes)
+ExtLateOK(e) == /\ e.st = "ok"
+                /\ e.has = e.rthas /\ e.getsame[1] = 1
+                /\ e.x1 = 1                          \* RangeExtensions visits it iff the runtime's enumeration lists it; no panic
+                /\ e.inb[1] # -1 /\ e.inb[1] = e.inb[2]
+                /\ e.has[2] = 0 /\ e.inb[1] = 0
 ExtMisOK(e) == e.has0 = 1 /\ e.geterr = 1 /\ e.seterr = 1 /\ e.unchanged = 1 /\ e.st # "panic"
 
 \* ---- C18: JSON adapters -------------------------------------------------------------------
@@ -58,18 +88,19 @@ JsonOK(e) ==
 TStep == /\ l <= Len(Trace)
          /\ LET e == Trace[l] IN
             /\ l' = l + 1
-            /\ CASE e.c = "disp" -> bad' = (IF ExplainsDispatch(e) THEN bad ELSE Append(bad, l)) /\ UNCHANGED <<desync, xs, mfail>>
-                 [] e.c = "extnew" -> xs' = [s \in 1..3 |-> 0] /\ UNCHANGED <<bad, desync, mfail>>
-                 [] e.c = "extop" -> /\ xs' = XApply(xs, e.op)
-                                     /\ bad' = (IF ExtOK(XApply(xs, e.op), e) THEN bad ELSE Append(bad, l))
+            /\ CASE e.c = "disp" -> bad' = (IF ExplainsDispatch(e) THEN bad ELSE Append(bad, l)) /\ UNCHANGED <<desync, xs, xl, xraw, mfail>>
+                 [] e.c = "extnew" -> xs' = [s \in 1..3 |-> 0] /\ xl' = 0 /\ xraw' = FALSE /\ UNCHANGED <<bad, desync, mfail>>
+                 [] e.c = "extop" -> /\ xs' = XApply(xs, e.op) /\ xl' = XLate(xl, e.op) /\ xraw' = XRaw(xraw, e)
+                                     /\ bad' = (IF ExtOK(XApply(xs, e.op), e) /\ LateOK(XLate(xl, e.op), xraw, e) THEN bad ELSE Append(bad, l))
                                      /\ mfail' = (IF MarshalFailed(e) THEN Append(mfail, l) ELSE mfail)
                                      /\ UNCHANGED desync
-                 [] e.c = "extmis" -> bad' = (IF ExtMisOK(e) THEN bad ELSE Append(bad, l)) /\ UNCHANGED <<desync, xs, mfail>>
-                 [] e.c = "extrt" -> bad' = (IF ExtRtOK(e) THEN bad ELSE Append(bad, l)) /\ UNCHANGED <<desync, xs, mfail>>
-                 [] e.c = "extuns" -> bad' = (IF ExtUnsOK(e) THEN bad ELSE Append(bad, l)) /\ UNCHANGED <<desync, xs, mfail>>
-                 [] e.c = "extnum" -> bad' = (IF ExtNumOK(e) THEN bad ELSE Append(bad, l)) /\ UNCHANGED <<desync, xs, mfail>>
-                 [] e.c = "json" -> bad' = (IF JsonOK(e) THEN bad ELSE Append(bad, l)) /\ UNCHANGED <<desync, xs, mfail>>
-                 [] OTHER -> desync' = Append(desync, l) /\ UNCHANGED <<bad, xs, mfail>>
+                 [] e.c = "extmis" -> bad' = (IF ExtMisOK(e) THEN bad ELSE Append(bad, l)) /\ UNCHANGED <<desync, xs, xl, xraw, mfail>>
+                 [] e.c = "extrt" -> bad' = (IF ExtRtOK(e) THEN bad ELSE Append(bad, l)) /\ UNCHANGED <<desync, xs, xl, xraw, mfail>>
+                 [] e.c = "extlate" -> bad' = (IF ExtLateOK(e) THEN bad ELSE Append(bad, l)) /\ UNCHANGED <<desync, xs, xl, xraw, mfail>>
+                 [] e.c = "extuns" -> bad' = (IF ExtUnsOK(e) THEN bad ELSE Append(bad, l)) /\ UNCHANGED <<desync, xs, xl, xraw, mfail>>
+                 [] e.c = "extnum" -> bad' = (IF ExtNumOK(e) THEN bad ELSE Append(bad, l)) /\ UNCHANGED <<desync, xs, xl, xraw, mfail>>
+                 [] e.c = "json" -> bad' = (IF JsonOK(e) THEN bad ELSE Append(bad, l)) /\ UNCHANGED <<desync, xs, xl, xraw, mfail>>
+                 [] OTHER -> desync' = Append(desync, l) /\ UNCHANGED <<bad, xs, xl, xraw, mfail>>
 TSpec == TInit /\ [][TStep]_tvars
 Report == l = Len(Trace) + 1 => JsonSerialize("result.json", [n |-> Len(Trace), bad |-> bad, drift |-> <<>>, desync |-> desync, mfail |-> mfail])
 =============================================================================
